@@ -44,9 +44,10 @@ fn gen_set(r: &mut Rng) -> Tok {
 }
 
 fn gen_tokens(r: &mut Rng, glob: bool) -> Vec<Tok> {
-    let n = match r.below(8) {
-        0 => 1,
-        1 => 2,
+    let n = match r.below(40) {
+        0..=4 => 1,
+        5..=9 => 2,
+        10 => *r.pick(&[15usize, 16, 17, 31, 32, 33, 63, 64, 65, 130]), // long patterns / names
         _ => r.range(2, 6),
     };
     let mut t = vec![];
@@ -371,7 +372,7 @@ pub fn run(cx: &mut Cx) {
     ] {
         cx.ev.require(k);
     }
-    let n = cx.per_shard(60, 5_000, 100_000, 1_200_000);
+    let n = cx.per_shard(60, 8_000, 480_000, 2_400_000);
     let mut r = cx.stream("tokens");
     for _ in 0..n {
         let glob = r.chance(3, 4);
@@ -417,7 +418,7 @@ pub fn run(cx: &mut Cx) {
     }
 
     // Fast-reject inertness for the other two kinds.
-    let n = cx.per_shard(20, 1_000, 20_000, 200_000);
+    let n = cx.per_shard(20, 2_000, 96_000, 480_000);
     let mut r = cx.stream("fastpath-other-kinds");
     for _ in 0..n {
         let base: String = (0..r.range(1, 4)).map(|_| *r.pick(&['a', 'b', 'p', 'y', '3', '-', 'Z', 'é', '.'])).collect();
